@@ -11,6 +11,7 @@ import (
 	"fmt"
 	"math/rand"
 	"net/http"
+	"strings"
 	"sync"
 	"sync/atomic"
 	"time"
@@ -19,7 +20,7 @@ import (
 )
 
 type c02ReqOpt struct {
-	upgrade bool // send "Upgrade: websocket" (the timeout handler steps aside for such requests)
+	upgrade string // value of an "Upgrade:" request header ("websocket": the timeout handler steps aside; anything else: an ordinary request)
 	ctx     context.Context
 	body    []byte
 	hasBody bool
@@ -30,12 +31,25 @@ type c02ReqOpt struct {
 // again (may be nil) re-reads the client's view later (recorder only).
 type c02Doer func(run *c02Run, opt c02ReqOpt) (resp *c02Resp, again func() *c02Resp)
 
-const c02Patience = 10 * time.Second // when to stop waiting for a response and open the gate; never a verdict by itself
+const c02Patience = 20 * time.Second // when to stop waiting for a response and open the gate; never a verdict by itself
 
 // c02Hangs counts gated requests that were still unanswered after c02Patience;
 // once it is non-zero no further gated late scenarios are started (each would
 // cost another c02Patience).
 var c02Hangs int64
+
+// c02TrimStacks: goroutine dump restricted to the chain's goroutines.
+func c02TrimStacks() string {
+	var b strings.Builder
+	for _, g := range vk.GoroutinesIn("api/handler.") {
+		if b.Len() > 6000 {
+			break
+		}
+		b.WriteString(g)
+		b.WriteString("\n\n")
+	}
+	return b.String()
+}
 
 type c02Pending struct {
 	ch    chan struct{}
@@ -108,8 +122,15 @@ func c02ScFastOpt(c *c02Ctx, e *c02Env, do c02Doer, rt *c02Route, sc *c02Script,
 
 // c02ScLate: gated late handler ⇒ the timeout response and nothing else; late
 // writes refused; the client's view does not change afterwards.
-func c02ScLate(c *c02Ctx, e *c02Env, do c02Doer, rt *c02Route, sc *c02Script) (ok bool, resp *c02Resp) {
+func c02ScLate(c *c02Ctx, e *c02Env, do c02Doer, rt *c02Route, sc *c02Script, opts ...c02ReqOpt) (ok bool, resp *c02Resp) {
 	class := sc.Kind // late | latepanic
+	var opt c02ReqOpt
+	if len(opts) > 0 {
+		opt = opts[0]
+		if opt.upgrade != "" {
+			class += "-upgrade-" + opt.upgrade // a non-websocket Upgrade header does not exempt a request from its deadline
+		}
+	}
 	c02Taint(rt)
 	run := e.newRun(rt, sc)
 	defer e.forget(run)
@@ -118,7 +139,7 @@ func c02ScLate(c *c02Ctx, e *c02Env, do c02Doer, rt *c02Route, sc *c02Script) (o
 		c.m.Count("late_skipped_after_hang", 1)
 		return false, nil
 	}
-	p := c02Go(do, run, c02ReqOpt{})
+	p := c02Go(do, run, opt)
 	patience := c02Patience
 	if d := 20 * rt.Timeout; d > patience {
 		patience = d
@@ -136,10 +157,20 @@ func c02ScLate(c *c02Ctx, e *c02Env, do c02Doer, rt *c02Route, sc *c02Script) (o
 			p.wait(c02Watchdog)
 			return false, nil
 		}
+		// The deadline has fired (the handler observed ctx.Done() — a recorded event), the
+		// handler is provably still parked on the harness gate (not opened yet), and the
+		// client is still waiting after a generous watchdog: the chain answers only when
+		// the handler returns, not when the deadline passes.
+		if run.entered() == 1 && atomic.LoadInt32(&run.sawDone) == 1 {
+			atomic.AddInt64(&c02Hangs, 1)
+			c.violate(class+":client-blocked-until-handler-returns", run, nil,
+				"route %s (timeout %v): the handler observed ctx.Done() (%q) and is parked on the harness gate; %v later the client still has no response. Goroutines:\n%s",
+				rt.Path, rt.Timeout, run.ctxErr, patience, c02TrimStacks())
+			run.release()
+			p.wait(c02Watchdog)
+			return false, nil
+		}
 		// still nothing: open the gate so that the client is not left hanging for ever.
-		// If the handler had seen ctx.Done() it finished long after the deadline and the
-		// timeout response stays the only legal one (judged below); if the deadline
-		// never fired at all this is a watchdog case: inconclusive.
 		atomic.AddInt64(&c02Hangs, 1)
 		c.m.Count("late_patience_expired", 1)
 		run.release()
@@ -240,6 +271,15 @@ func c02ScCancel(c *c02Ctx, e *c02Env, do c02Doer, rt *c02Route, sc *c02Script) 
 	}
 	cancel()
 	if !p.wait(c02Patience) {
+		if run.entered() == 1 && atomic.LoadInt32(&run.sawDone) == 1 {
+			atomic.AddInt64(&c02Hangs, 1)
+			c.violate(class+":client-blocked-until-handler-returns", run, nil,
+				"route %s: the client context was cancelled, the handler observed ctx.Done() and is parked on the harness gate; %v later the chain has still not answered. Goroutines:\n%s",
+				rt.Path, c02Patience, c02TrimStacks())
+			run.release()
+			p.wait(c02Watchdog)
+			return false
+		}
 		c.m.Count("late_patience_expired", 1)
 		run.release()
 		if !p.wait(c02Watchdog) {
